@@ -121,7 +121,8 @@ def gen_grid(rng):
     target_kind = "bare" if tk < 0.4 else "arr"
     tname = rng.choice(["dens", "T", "sigma_levels", "lev"])
     td_given = True if method != "linear" or rng.random() < 0.85 else False
-    td_name = rng.choice(["dens", "rho", None, None]) if td_given else None
+    # (the name of target_data is a label like any other: it may even be that of a dimension)
+    td_name = rng.choice(["dens", "rho", None, None, "zc", "zo"]) if td_given else None
     target_dim = None
     if target_kind == "arr" and rng.random() < 0.3:
         target_dim = tname
